@@ -666,7 +666,7 @@ pub fn c05(run: &mut Run) {
     run.require_label("c05_model", "resume", 0.1);
     run.require_label("c05_model", "blend_after_pause_discarded", 0.05);
     run.require_label("c05_model", "pause", 0.2);
-    crate::fuzzdrv::campaign(run, "fz_c05", 4_800_000);
+    crate::fuzzdrv::campaign(run, "fz_c05", 14_400_000);
     // exhaustive enumeration of all histories up to a depth over a 9-letter alphabet
     let depth: u32 = if run.tier == mv_engine::Tier::Quick { 6 } else { 8 };
     let alphabet: Vec<AOp> = vec![
@@ -1111,5 +1111,5 @@ pub fn c06(run: &mut Run) {
         run.tier.pick(20_000, 500_000),
         c06_train_judge,
     );
-    crate::fuzzdrv::campaign(run, "fz_c06", 6_400_000);
+    crate::fuzzdrv::campaign(run, "fz_c06", 19_200_000);
 }
